@@ -807,32 +807,32 @@ func c13Validity(c *eng.Ctx) {
 func flushAlwaysWrites(c *eng.Ctx, rule string, f *ssa.Function, call *ssa.Call) {
 	p := c.P
 	in := ssa.Instruction(call)
-			assumeCache := func(b *ssa.BasicBlock, i int) bool {
-				ifi, ok := b.Instrs[len(b.Instrs)-1].(*ssa.If)
-				if !ok {
-					return true
-				}
-				v, isNil, isN := eng.CondOf(ifi.Cond, i == 0).NilCheck()
-				if !isN {
-					return true
-				}
-				if fr2, _, isF2 := eng.LoadedField(v); isF2 && fr2.Is(setecPkg, "Store", "cache") {
-					return !isNil
-				}
-				return true
-			}
-			hit, path := eng.Search(f, nil, assumeCache, func(x ssa.Instruction) bool { return x == in }, func(x ssa.Instruction) bool {
-				r, isR := x.(*ssa.Return)
-				if !isR {
-					return false
-				}
-				rv := eng.RetVals(r)
-				return len(rv) == 0 || nonNilAt(rv[len(rv)-1], eng.FactsAt(r)) != eng.Yes
-			})
-			c.Check(hit == nil, rule, f, in.Pos(), "flush routine "+eng.FName(f)+" [always writes]", "with a cache configured, every path that reports success has written the document (no 'nothing changed' short-cut: access stamps and failed earlier writes would be lost)", func() string {
-				if hit == nil {
-					return ""
-				}
-				return "success return at " + p.Pos(hit.Pos()) + " reachable without writing: " + p.PathStr(path)
-			}())
+	assumeCache := func(b *ssa.BasicBlock, i int) bool {
+		ifi, ok := b.Instrs[len(b.Instrs)-1].(*ssa.If)
+		if !ok {
+			return true
+		}
+		v, isNil, isN := eng.CondOf(ifi.Cond, i == 0).NilCheck()
+		if !isN {
+			return true
+		}
+		if fr2, _, isF2 := eng.LoadedField(v); isF2 && fr2.Is(setecPkg, "Store", "cache") {
+			return !isNil
+		}
+		return true
+	}
+	hit, path := eng.Search(f, nil, assumeCache, func(x ssa.Instruction) bool { return x == in }, func(x ssa.Instruction) bool {
+		r, isR := x.(*ssa.Return)
+		if !isR {
+			return false
+		}
+		rv := eng.RetVals(r)
+		return len(rv) == 0 || nonNilAt(rv[len(rv)-1], eng.FactsAt(r)) != eng.Yes
+	})
+	c.Check(hit == nil, rule, f, in.Pos(), "flush routine "+eng.FName(f)+" [always writes]", "with a cache configured, every path that reports success has written the document (no 'nothing changed' short-cut: access stamps and failed earlier writes would be lost)", func() string {
+		if hit == nil {
+			return ""
+		}
+		return "success return at " + p.Pos(hit.Pos()) + " reachable without writing: " + p.PathStr(path)
+	}())
 }
